@@ -7,6 +7,7 @@ import (
 	"go/token"
 	"os"
 	"path/filepath"
+	"runtime/debug"
 	"sort"
 	"strconv"
 	"strings"
@@ -136,7 +137,11 @@ func runProperty(c *Ctx, p *Property) *RunResult {
 			defer func() {
 				if e := recover(); e != nil {
 					// A checker that cannot decide must not say "held".
-					r.add("analyser-panic", token.NoPos, Undecided, fmt.Sprint(e))
+					msg := fmt.Sprint(e)
+					if os.Getenv("VERIF_DEBUG") != "" {
+						msg += "\n" + string(debug.Stack())
+					}
+					r.add("analyser-panic", token.NoPos, Undecided, msg)
 				}
 			}()
 			rule.Run(c, r)
